@@ -222,4 +222,5 @@ def main():
              assumptions=["the string <-> term step (lexing) is covered by correspondence and by C16, not by a theorem",
                           "units with a mixed-base (float exponent) prefix are outside the exact model; they print a leading magnitude (known finding class)"])
 
-guarded(main, "C13")
+if __name__ == "__main__":
+    guarded(main, "C13")
